@@ -320,7 +320,7 @@ Lemma take_line_spec s acc :
   if found then rev acc ++ s = ln ++ [10%N] ++ rest /\ ~ In 10%N (skipn (length acc) ln)
   else rev acc ++ s = ln /\ rest = [] /\ ~ In 10%N s.
 Proof.
-  revert acc. induction s as [|c t IH]; intro acc; cbn.
+  revert acc. induction s as [|c t IH]; intro acc; cbn; rewrite <- ?rev_alt.
   - rewrite app_nil_r. auto.
   - destruct (c =? 10)%N eqn:E.
     + apply N.eqb_eq in E. subst. split; [reflexivity|].
